@@ -1,5 +1,5 @@
 // Package c20: text and encoding helpers: truncate bound, escaping completeness, raw identity.
-// (toJSON is outside: encoding/json cannot be encoded, see DESIGN.md.)
+// toJSON: see c20json.go (encoding/json is a model of the engine, validated by selftest).
 package c20
 
 import (
